@@ -234,8 +234,10 @@ class Gen:
                 off = d["lo"] + 0x40      # stay inside the mapped range at the last bank
             return (bank << 16) | off
         if self.rom == "high":
-            return r.choice([0xC00000, 0xC10000, 0xC2FFF0, 0x408000, 0xD01234, 0xC1FFFC]) + r.choice([0, 0, 1, 2])
-        return r.choice([0x008000, 0x018000, 0x02FFF0, 0x038000, 0x0F9000, 0x808000, 0x81FFF8, 0x00FFFA]) + r.choice([0, 0, 1, 3])
+            return r.choice([0xC00000, 0xC10000, 0xC2FFF0, 0x408000, 0xD01234, 0xC1FFFC, 0x7D0000, 0xFE8000]) + r.choice([0, 0, 1, 2])
+        # (banks 0x50 / 0x6F / 0xCF: the last banks of the primary range, beyond and at the end of the mirror range)
+        return r.choice([0x008000, 0x018000, 0x02FFF0, 0x038000, 0x0F9000, 0x808000, 0x81FFF8, 0x00FFFA, 0x508000, 0x6F8010,
+                         0xCF8000]) + r.choice([0, 0, 1, 3])
 
     def reloc_addr(self):
         r = self.rnd
